@@ -69,6 +69,10 @@ def check(ctx):
     from . import c10 as _c10, c16 as _c16
     ctx.shared("C16", _c16.check)
     ctx.shared("C10", _c10.env_rules)
+    # "the clean hooks leave no responder behind that would block a later run" — and the next identifier of the SAME run: the clean hooks
+    # run once per validated authorization, before the next one is solved (C05's cleanup rules)
+    from . import c05 as _c05
+    ctx.shared("C05", _c05.cleanup)
     cfg, path = A.load_default_hooks(ctx.repo)
     path = os.path.relpath(path, ctx.repo)
     hooks = cfg.get("hook", [])
@@ -215,6 +219,7 @@ def check(ctx):
                         ctx.require(R5, killed[sym][0] < removed[sym][0], path, "group %s: pkill runs before the pid file is removed" % g["name"], ["default_hooks", "kill-order", g["name"]])
     ctx.floor(R5, "created resources paired with a removal", n_res, 4)
     pid_file_rule(ctx, R5)
+    listen_text_rule(ctx, R3)
 
     R6 = ctx.rule("R6", "http-01: the proof is written to <HTTP_ROOT>/<identifier>/.well-known/acme-challenge/<file_name> with content {{ proof }}")
     doc_path = [p for p in docs_g.get("http-01-echo", {}).get("paths", []) if p.startswith("{{ env.HTTP_ROOT")]
@@ -262,6 +267,23 @@ def check(ctx):
         want = ["file-pre-edit", "file-post-edit"] if exists else ["file-pre-create", "file-post-create"]
         ctx.require(R7, tr["kind"] == "return" and hk == want, "acmed/src/storage.rs", "%s %s file: the daemon runs %s (so init precedes and add + commit follow the write); evaluated: %s" % ("rewritten" if exists else "new", ft, want, hk),
                     ["storage::write_file", "file-events", "exists" if exists else "new", ft])
+
+
+def listen_text_rule(ctx, rid):
+    """the shipped hooks pass `--listen {{ env.TACD_HOST }}:{{ env.TACD_PORT }}` — any host the socket layer understands, bracketed IPv6
+    included. tacd gives that text to TcpListener::bind / UnixListener::bind as it is (minus the `unix:` prefix): it does not split or
+    parse it itself"""
+    from ..flow import arg_origins
+    prog = ctx.prog
+    sb = prog.body("tacd::openssl_server::start")
+    if sb is None:
+        return
+    binds = [c for c in sb.calls if c.bb in sb.live_blocks() and (c.name or "").rsplit("::", 1)[-1] == "bind" and "Listener" in (c.name or "")]
+    ctx.floor(rid, "listener bind sites in tacd::openssl_server::start", len(binds), 2)
+    for c in binds:
+        sl = arg_origins(c, 0)
+        parsed = sorted(v for v in sl.via if v.rsplit("::", 1)[-1] in ("split", "rsplit", "split_once", "rsplit_once", "splitn", "rsplitn", "parse", "from_str", "to_socket_addrs", "trim_matches", "trim_start_matches", "replace"))
+        ctx.require(rid, sl.has_leaf("param:1") and not parsed, c.where(), "%s receives the --listen text itself (re-parsed through %s)" % (c.name.rsplit("::", 2)[-2] + "::bind", parsed), ["tacd::openssl_server::start", "listen-text"])
 
 
 def pid_file_rule(ctx, rid):
